@@ -610,11 +610,11 @@ fn str_get_case(text: &'static str, index: i64, want: Option<char>) {
 
 //@ id: c06_h2_text_concrete_cases
 //@ property: C06
-//@ tier: quick
+//@ tier: off
 //@ encodes: BuiltinRuntime::invoke (dispatch), impls::{str_parse_int_branch, str_get_branch} on concrete texts
 //@ sym: which of 4 concrete calls (constant call sites chosen by the solver): a number with a leading blank, with a trailing newline; str_get at position -1 and one past the end of a mixed multi-byte text (16 call sites did not finish in 20 min)
 //@ oracle: all four take the `none` branch: white space is never trimmed, a negative or too large position is out of range
-//@ bounds: concrete arguments only (a twin of c06_h2_str_parse_int_b2 / c06_h2_str_get that still finishes on variants of the code that run trimming or counting code on the text); unwind 24
+//@ bounds: concrete arguments only; meant as a twin of c06_h2_str_parse_int_b2 / c06_h2_str_get for variants of the code that run trimming or counting code on the text - measured: passes on the unchanged tree (9 min) but still does not finish on such variants (the text's length is read back from the heap, so std's string routines stay symbolic); switched off; unwind 24
 //@ stubs: as c05_h3_arith_int8
 //@ replay: playback
 #[kani::proof]
